@@ -278,10 +278,14 @@ func guidReplay(args []string) int {
 			f.Inject(preTs, preSq, preID)
 			rec := &hlib.Recorder{}
 			rec.Install()
+			tick0 := time.Now().UnixNano() >> 20
 			id, gerr := f.NewGUID()
+			tick1 := time.Now().UnixNano() >> 20
 			rec.Uninstall()
 			evs := rec.Take()
-			if len(evs) != 1 || hlib.KVInt(evs[0], "ts") != T {
+			// the call's clock reading is T if the clock said T just before AND just after it (whether or not the
+			// code reported the reading through its hook)
+			if tick0 != T || tick1 != T || (len(evs) == 1 && hlib.KVInt(evs[0], "ts") != T) {
 				continue // the millisecond ticked between injection and call: retry
 			}
 			ok = true
